@@ -22,6 +22,7 @@ mod canon;
 mod fam;
 mod fam_c33;
 mod fam_c32;
+mod fam_c19;
 
 pub fn unescape(s: &str) -> String {
     let mut out = String::with_capacity(s.len());
